@@ -159,6 +159,11 @@ pub trait Check: Sync + Send {
     fn hang_is_violation(&self) -> bool {
         true
     }
+    /// Reach probes this check is expected to hit (names without the `probe.` / `fault.` prefix as they appear in
+    /// the counters, i.e. WITH the prefix): any that stays at zero is listed under `probes_at_zero`.
+    fn declared_probes(&self) -> Vec<&'static str> {
+        Vec::new()
+    }
     /// additional coverage keys (e.g. `exhaustive`, stat budget)
     fn extra_coverage(&self, _tier: Tier, _counters: &BTreeMap<String, u64>) -> serde_json::Map<String, Value> {
         serde_json::Map::new()
@@ -1013,7 +1018,12 @@ fn run_tier<C: Check>(check: &C, tier: Tier) -> i32 {
             other.insert(k.clone(), json!(v));
         }
     }
-    let zero_probes: Vec<&String> = probes.iter().filter(|(_, v)| v.as_u64() == Some(0)).map(|(k, _)| k).collect();
+    let mut zero_probes: Vec<String> = probes.iter().filter(|(_, v)| v.as_u64() == Some(0)).map(|(k, _)| k.clone()).collect();
+    for d in check.declared_probes() {
+        if counters.get(d).copied().unwrap_or(0) == 0 {
+            zero_probes.push(d.to_string());
+        }
+    }
     let mut rule = check.rule();
     if total > FP_RUN_CAP {
         rule.push_str(&format!(
